@@ -25,6 +25,11 @@
 (*                          Clean(Join(dest, name)) is tested for          *)
 (*                          containment, symbolic links are created with   *)
 (*                          any target, hard links are skipped             *)
+(*   DevPrefixNoSeparator   "inside the destination" tested as a string    *)
+(*                          prefix without the path separator: the sibling *)
+(*                          /w/ox counts as inside /w/o                    *)
+(*   DevChmodDir            a directory entry's mode is applied with       *)
+(*                          chmod after MkdirAll (follows a final link)    *)
 (***************************************************************************)
 EXTENDS FsCore, TLC, Json
 
@@ -47,7 +52,7 @@ CONSTANTS Dev,         \* enabled deviations
           Ops,         \* subset of {"upload","uploaddir","download","list","stat","chmod","delete","rdelete"}
           MaxOps
 
-DevNames == {"DevLexicalOnly", "DevFinalComponentOnly", "DevNoLinkChecks"}
+DevNames == {"DevLexicalOnly", "DevFinalComponentOnly", "DevNoLinkChecks", "DevPrefixNoSeparator", "DevChmodDir"}
 ASSUME Dev \subseteq DevNames /\ Part \in {"X", "A"}
 
 VARIABLES fs, data, nino,   \* file system (FsCore), file contents per inode, next free inode
@@ -77,13 +82,19 @@ Good(f, d, ni) == [ok |-> TRUE, f |-> f, d |-> d, ni |-> ni]
 Dest == <<"w", "o">>
 Within(p) == IsPrefix(Dest, p)
 
-\* the world before extraction: sentinels next to the destination and one level further out
+\* the world before extraction: sentinels next to the destination and one level further out; the sibling directory
+\* "ox" has the destination's name as a string prefix
 XWorld == (<<"s">> :> FileN(1)) @@ (<<"w">> :> DirN) @@ (<<"w", "s">> :> FileN(2)) @@
-          (<<"w", "t">> :> DirN) @@ (<<"w", "t", "s">> :> FileN(3))
-XData  == (1 :> "s") @@ (2 :> "s") @@ (3 :> "s")
+          (<<"w", "t">> :> DirN) @@ (<<"w", "t", "s">> :> FileN(3)) @@
+          (<<"w", "ox">> :> DirN) @@ (<<"w", "ox", "s">> :> FileN(4))
+XData  == (1 :> "s") @@ (2 :> "s") @@ (3 :> "s") @@ (4 :> "s")
+\* what the code's containment tests accept (NoEscape itself always uses Within)
+In(p) == Within(p) \/ ("DevPrefixNoSeparator" \in Dev /\ IsPrefix(<<"w", "ox">>, p))
 
 Entries ==
   {[kind |-> "dir",  name |-> nm, target |-> <<>>] : nm \in IF "dir" \in Kinds THEN Names ELSE {}} \cup
+  \* "dirc": a directory entry with a non-default mode (0750)
+  {[kind |-> "dirc", name |-> nm, target |-> <<>>] : nm \in IF "dirc" \in Kinds THEN Names ELSE {}} \cup
   {[kind |-> "file", name |-> nm, target |-> <<>>] : nm \in IF "file" \in Kinds THEN Names ELSE {}} \cup
   {[kind |-> "sym",  name |-> nm, target |-> t] : nm \in IF "sym" \in Kinds THEN Names ELSE {}, t \in Targets} \cup
   {[kind |-> "hard", name |-> nm, target |-> t] : nm \in IF "hard" \in Kinds THEN Names ELSE {}, t \in Names}
@@ -93,7 +104,7 @@ San(name) == LET c == CleanRel(name) IN
              IF c # <<>> /\ c[1] = ".." THEN [ok |-> FALSE, p |-> <<>>] ELSE [ok |-> TRUE, p |-> Dest \o c]
 
 \* tar.go validateSymlink: no absolute target; Clean(Join(Dir(link), target)) lexically inside the destination
-SymlinkOK(linkPath, t) == ~TAbs(t) /\ Within(CleanAbs(Dirname(linkPath) \o TComps(t)))
+SymlinkOK(linkPath, t) == ~TAbs(t) /\ In(CleanAbs(Dirname(linkPath) \o TComps(t)))
 
 \* Repaired code, resolveInDest: the physical location of a lexically sanitised path.  Walks the components below
 \* the (real) destination; an existing symbolic link component is resolved with EvalSymlinks and must stay inside
@@ -108,7 +119,7 @@ RID(f, cur, rest) ==
        ELSE IF l.st # "ok" THEN [ok |-> FALSE, p |-> <<>>]
        ELSE IF f[next].k = "link" THEN
               LET e == EvalSymlinks(f, next) IN
-              IF e.st # "ok" \/ ~Within(e.p) THEN [ok |-> FALSE, p |-> <<>>] ELSE RID(f, e.p, Tail(rest))
+              IF e.st # "ok" \/ ~In(e.p) THEN [ok |-> FALSE, p |-> <<>>] ELSE RID(f, e.p, Tail(rest))
        ELSE RID(f, next, Tail(rest))
 ResolveInDest(f, tp) == IF tp = Dest THEN [ok |-> TRUE, p |-> Dest]
                         ELSE RID(f, Dest, SubSeq(tp, Len(Dest) + 1, Len(tp)))
@@ -123,7 +134,12 @@ Locate(f, name) ==
   IF ~s.ok THEN s
   ELSE IF Lexical THEN s ELSE ResolveInDest(f, s.p)
 
-ExDir(f, d, ni, tp) == LET m == MkdirAll(f, tp) IN [ok |-> m.ok, f |-> m.f, d |-> d, ni |-> ni]
+\* os.MkdirAll(target, header.Mode): missing directories are created with the entry's mode, an existing one is kept
+ExDir(f, d, ni, tp, mode) ==
+  LET m == MkdirAllM(f, tp, mode) IN
+  IF m.ok /\ "DevChmodDir" \in Dev
+    THEN LET c == SysChmod(m.f, tp, mode) IN [ok |-> c.ok, f |-> c.f, d |-> d, ni |-> ni]
+    ELSE [ok |-> m.ok, f |-> m.f, d |-> d, ni |-> ni]
 
 ExFile(f, d, ni, tp) ==
   LET m == MkdirAll(f, Dirname(tp)) IN
@@ -155,14 +171,15 @@ ExHard(f, d, ni, tp, lname) ==
 ExtractEntry(f, d, ni, e) ==
   LET loc == Locate(f, e.name) IN
   IF ~loc.ok THEN Fail(f, d, ni)
-  ELSE CASE e.kind = "dir"  -> ExDir(f, d, ni, loc.p)
+  ELSE CASE e.kind = "dir"  -> ExDir(f, d, ni, loc.p, "d")
+         [] e.kind = "dirc" -> ExDir(f, d, ni, loc.p, "c")
          [] e.kind = "file" -> ExFile(f, d, ni, loc.p)
          [] e.kind = "sym"  -> ExSym(f, d, ni, loc.p, e.target)
          [] e.kind = "hard" -> IF NoChecks THEN Good(f, d, ni)       \* entry type not handled: skipped
                                ELSE ExHard(f, d, ni, loc.p, e.target)
 
 XInit ==
-  /\ fs = XWorld /\ data = XData /\ nino = 4
+  /\ fs = XWorld /\ data = XData /\ nino = 5
   /\ st = "new" /\ n = 0 /\ pats = {} /\ touched = {}
   /\ hist = <<>> /\ last = [act |-> "Init"]
 
@@ -382,9 +399,15 @@ Access(op, req) ==
   /\ LET cp == CleanAbs(ReqComps(req))
          valid == Validate(fs, pats, op, req)
          r == IF valid THEN Perform(op, fs, data, nino, cp) ELSE ARes(FALSE, fs, data, nino, NoRet, {})
-         tch == r.extra \cup Mod(fs, data, r.f, r.d) IN
+         tch == r.extra \cup Mod(fs, data, r.f, r.d)
+         tgt == RE(fs, cp)
+         \* creating the missing parent directories of an allowed destination is part of creating that destination
+         \* (a pattern such as /r/*/a does not match the intermediate directory /r/x itself)
+         ImpliedDir(q) == /\ q \notin DOMAIN fs /\ q \in DOMAIN r.f /\ r.f[q].k = "dir"
+                          /\ tgt.ok /\ IsPrefix(q, tgt.p) /\ q # tgt.p /\ RealAllowed(fs, pats, tgt.p) IN
      /\ fs' = r.f /\ data' = r.d /\ nino' = r.ni
-     /\ touched' = touched \cup {[v |-> t.v, p |-> t.p, allowed |-> RealAllowed(fs, pats, t.p)] : t \in tch}
+     /\ touched' = touched \cup {[v |-> t.v, p |-> t.p,
+                                  allowed |-> RealAllowed(fs, pats, t.p) \/ (t.v = "mod" /\ ImpliedDir(t.p))] : t \in tch}
      /\ last' = [act |-> "Access", op |-> op, req |-> req, valid |-> valid, ok |-> r.ok, ret |-> r.ret]
   /\ n' = n + 1
   /\ hist' = hist
